@@ -209,9 +209,7 @@ void checkTables(Case &c, const std::string &profile, const Expectation &x, cons
     };
     if (x.ode) {
         InfoEntry want = expectedInfo(am->voi());
-        std::string d = infoDiff(r.voiInfo, want, comparisons);
-        VP_CHECK(c, d.empty(), "C17.info|" + profile + "|VOI_INFO|" + d, "VOI_INFO is " << show(r.voiInfo) << ", the analyser's variable of integration is " << show(want));
-        // the expected strings have to fit as well: what was read back may already be truncated / run into the next field
+        // the expected strings have to fit first: what is read back from an overflowing field runs into the next one
         InfoEntry capE = want;
         capE.nameCap = r.voiInfo.nameCap;
         capE.unitsCap = r.voiInfo.unitsCap;
@@ -219,6 +217,8 @@ void checkTables(Case &c, const std::string &profile, const Expectation &x, cons
         if (!capOk(capE, "VOI_INFO", 0)) {
             return;
         }
+        std::string d = infoDiff(r.voiInfo, want, comparisons);
+        VP_CHECK(c, d.empty(), "C17.info|" + profile + "|VOI_INFO|" + d, "VOI_INFO is " << show(r.voiInfo) << ", the analyser's variable of integration is " << show(want));
         VP_CHECK(c, r.stateInfo.size() == am->stateCount(), "C17.info|" + profile + "|STATE_INFO|size", "STATE_INFO has " << r.stateInfo.size() << " entries, the model has " << am->stateCount() << " states");
         for (size_t i = 0; i < am->stateCount(); ++i) {
             auto av = byIndex(am->states(), i);
@@ -809,7 +809,7 @@ Property property = {
     "C17",
     "translation_validation",
     "rapidcheck tapes drive the ground-truth model generator of C03 (1-4 components, constants / computed constants / algebraic variables / states / NLA systems, expression trees over the MathML operator set) with a per-case operator pool "
-    "(no helper-requiring operator / a few / the trigonometric ones / all) plus 0-2 quota equations that use one helper-requiring operator directly, in a taken or untaken piecewise branch, in a logbase or as an operand; 40 % of the "
+    "(no helper-requiring operator / a few / the trigonometric ones / all) plus 0-3 quota equations that each use one helper-requiring operator directly, in a taken or untaken piecewise branch, in a logbase or as an operand; 40 % of the "
     "cases mark 1-2 states/variables external (sometimes through a non-primary equivalent variable); 30 % are made non-valid (equation dropped, duplicate definition, both, variable without units, initialised voi, empty model, null "
     "model, a new analyser's UNKNOWN model). Valid models: C code is compiled (-Wall -Wextra), linked with an address-taking probe and run, Python code is exec'd; counts, every info-table entry, buffer capacities, declared/defined "
     "signatures, enumerators and the set of helper functions defined / called in the text are compared with the AnalyserModel and with the operators of the equations. Non-valid models: all four code strings are empty. "
